@@ -66,10 +66,16 @@ type Proof struct {
 }
 
 func (p *Proof) IsValid(public Public) bool {
-	if p == nil {
+	if p == nil || p.group == nil || p.Commitment == nil || public.Prover == nil || public.Aux == nil {
+		return false
+	}
+	if !arith.IsValidNatModN(public.Aux.N(), p.S, p.T) {
 		return false
 	}
 	if !public.Prover.ValidateCiphertexts(p.D) {
+		return false
+	}
+	if curve.IsNilScalar(p.W) || curve.IsNilPoint(p.Y) || curve.IsNilPoint(p.Z) {
 		return false
 	}
 	if p.W.IsZero() || p.Y.IsIdentity() || p.Z.IsIdentity() {
